@@ -86,7 +86,7 @@ def classic_model(lg, case, ic_tol=1e-15):
     import nifty.cl as ift
     sizes = sizes_of(case)
     doms = {k: ift.UnstructuredDomain(s) for k, s in zip(KEYS, sizes)}
-    tgt = ift.UnstructuredDomain(lg.m)
+    tgt = ift.UnstructuredDomain(lg.m_impl)
     offs = [0, sizes[0], lg.n]
 
     def lin(M, sq=False):
@@ -97,15 +97,17 @@ def classic_model(lg, case, ic_tol=1e-15):
             part = L.dense_op(doms[k], tgt, M[:, offs[i]:offs[i + 1]]) @ inner
             op = part if op is None else op + part
         return op
-    f = lin(lg.f("R"))
+    f = lin(lg.impl("R"))
     if case["nonlinear"]:
-        f = ift.Adder(ift.makeField(tgt, lg.f("c"))) @ (f + lin(lg.f("Q"), sq=True))
+        cfield = ift.makeField(tgt, lg.impl("c").astype(lg.impl("d").dtype))
+        f = ift.Adder(cfield) @ (f + lin(lg.impl("Q"), sq=True))
     if case["noise"] == "diag":      # has get_sqrt() and a sampling dtype: needed by the geometric sampler
-        Ninv = ift.DiagonalOperator(ift.makeField(tgt, np.diag(lg.f("Ninv")).copy()), sampling_dtype=np.float64)
+        Ninv = ift.DiagonalOperator(ift.makeField(tgt, np.diag(lg.impl("Ninv")).copy()),
+                                    sampling_dtype=np.complex128 if lg.is_complex else np.float64)
     else:
         Wop = L.dense_op(tgt, tgt, lg.f("W"))
         Ninv = ift.SandwichOperator.make(Wop, None, np.float64)
-    lh = ift.GaussianEnergy(ift.makeField(tgt, lg.f("d")), Ninv) @ f
+    lh = ift.GaussianEnergy(ift.makeField(tgt, lg.impl("d")), Ninv) @ f
     ic = ift.AbsDeltaEnergyController(ic_tol, iteration_limit=500, convergence_level=3)
     H = ift.StandardHamiltonian(lh, ic, prior_sampling_dtype=np.float64)
     p = lg.f("p")
@@ -124,8 +126,8 @@ def jax_model(lg, case):
     import jax.numpy as jnp
     import nifty.re as jft
     sizes = sizes_of(case)
-    R, Ninv, W, d = (jnp.asarray(lg.f(k)) for k in ("R", "Ninv", "W", "d"))
-    Q, c = jnp.asarray(lg.f("Q")), jnp.asarray(lg.f("c"))
+    R, Ninv, W, d = (jnp.asarray(lg.impl(k)) for k in ("R", "Ninv", "W", "d"))
+    Q, c = jnp.asarray(lg.impl("Q")), jnp.asarray(lg.impl("c"))
     nonlinear = case["nonlinear"]
 
     def fwd(x):
@@ -151,8 +153,11 @@ def flat_vec(v, case=None):
                            for k, s in zip(KEYS, sizes_of(case))])
 
 
-def gen_case(rng, idx):
-    case = L.gen_lg_case(rng, idx, dims=[(2, 3), (3, 3), (4, 3), (3, 4), (3, 2), (2, 2)][int(rng.integers(6))])
+def gen_case(rng, idx, cplx=None):
+    if cplx is None:
+        cplx = (idx % 3 == 1)          # every third model: complex response and data, real signal
+    case = L.gen_lg_case(rng, idx, dims=[(2, 3), (3, 3), (4, 3), (3, 4), (3, 2), (2, 2)][int(rng.integers(6))],
+                         cplx=cplx)
     case["na"] = int(rng.integers(1, case["n"]))
     case["nonlinear"] = bool(rng.random() < 0.5)
     case["pe"] = [[], [], ["a"], ["b"]][int(rng.integers(4))]
@@ -349,6 +354,15 @@ def jax_samples_and_geo(lg, case, seed, n_samples=2):
                   cg_kwargs=dict(name=None, **L.CG_TIGHT))
         upd, _ = _quiet(lambda: opt.nonlinearly_update_samples(lin, point_estimates=pe, minimize_kwargs=mk))
         out["geo"] = np.array([flat_vec(jax.tree_util.tree_map(lambda a: a[i], upd._samples), case) for i in range(len(upd))])
+    # Wiener filter of the model linearised at the (non-zero) expansion point p: the samples must be
+    # exact posterior samples of the linearised model, in particular centred on its posterior mean
+    if not pe:
+        wf, _ = _quiet(lambda: jft.wiener_filter_posterior(
+            lh, pos, key=jax.random.PRNGKey(seed + 29), n_samples=n_samples, model_is_linear=False, jit=False,
+            draw_linear_kwargs=dict(cg_name=None, cg_kwargs=dict(L.CG_TIGHT))))
+        out["wf_pos"] = flat_vec(wf.pos, case)
+        out["wf_res"] = np.array([flat_vec(jax.tree_util.tree_map(lambda a: a[i], wf._samples), case) for i in range(len(wf))])
+        out["wf_samples"] = np.array([flat_vec(jax.tree_util.tree_map(lambda a: a[i], wf.samples), case) for i in range(len(wf))])
     return out
 
 
@@ -468,17 +482,22 @@ class C18(C.Check):
         self.obs_S = []
         nS = 4 if ctx.quick else 20
         jobs = [(case, "re") for case in cases[:nS]]
-        cl_geo = [c for c in cases if not c["nonlinear"] and c["noise"] == "diag"]
-        rng_extra = ctx.rng(1801)
-        k = 0
-        while len(cl_geo) < (3 if ctx.quick else 12):       # make sure the classic geometric sampler is exercised
-            c = gen_case(rng_extra, 500 + k)
-            k += 1
-            if c["noise"] == "diag":
-                c["nonlinear"] = False
-                cl_geo.append(c)
-        jobs += [(case, "cl") for case in cl_geo[:(3 if ctx.quick else 12)]]
-        jobs += [(case, "re") for case in cl_geo[:(2 if ctx.quick else 12)] if case not in cases[:nS]]
+        # the geometric samplers need linear models with diagonal noise; real AND complex data
+        want = 2 if ctx.quick else 8
+        cl_geo = []
+        for cplx in (False, True):
+            pool = [c for c in cases if not c["nonlinear"] and c["noise"] == "diag" and ("Ri" in c) == cplx]
+            rng_extra = ctx.rng(1801 + int(cplx))
+            k = 0
+            while len(pool) < want:
+                c = gen_case(rng_extra, 500 + k, cplx=cplx)
+                k += 1
+                if c["noise"] == "diag":
+                    c["nonlinear"] = False
+                    pool.append(c)
+            cl_geo += pool[:want]
+        jobs += [(case, "cl") for case in cl_geo]
+        jobs += [(case, "re") for case in cl_geo if case not in cases[:nS]]
         for case, api in jobs:
             lg = L.LG(case)
             if True:
@@ -501,6 +520,13 @@ class C18(C.Check):
                 if "geo" in o:
                     checks.append("residuals_close %s %s %s" % (TOL_GEO_Q, rows(o["lin"]), rows(o["geo"])))
                     meta.append((api + ".geovi_linear", case))
+                if "wf_pos" in o:
+                    Qm = lg.Q if case["nonlinear"] else [[Fr(0)] * lg.n for _ in range(lg.m)]
+                    cc = lg.c if case["nonlinear"] else [Fr(0)] * lg.m
+                    checks.append("corr_lin_signal %s %s %s %s %s %s %s %s %s && mirrored_ok %s" % (
+                        TOL_GEO_Q, C.cnat(lg.n), qm(lg.R), qm(Qm), qm(lg.Ninv), qv(cc), qv(lg.d), qv(lg.p),
+                        fv(o["wf_pos"]), rows(o["wf_res"])))
+                    meta.append(("re.wf_linearised_samples", case))
         timing["samples_s"] = round(time.time() - t0, 1)
         t0 = time.time()
         bad = C.eval_cases(self.prop, "corr", HEADER, checks, shard=12)
@@ -663,6 +689,18 @@ def samples_failure(case, api, o):
             return "geometric samples carry neg flags"
     if np.any(lin[:, ~mask] != 0):
         return "point-estimated components of residuals are not zero"
+    if "wf_pos" in o:
+        lg = L.LG(case)
+        J, de = lg.np_lin() if case["nonlinear"] else (lg.f("R"), lg.f("d"))
+        ref = lg.np_mean(J, de)
+        if np.abs(o["wf_pos"] - ref).max() > TOL_GEO:
+            return "Wiener-filter samples of the model linearised at p are centred %.3e away from its posterior mean" \
+                % np.abs(o["wf_pos"] - ref).max()
+        if np.abs(o["wf_samples"].mean(axis=0) - ref).max() > TOL_GEO:
+            return "average of the Wiener-filter samples deviates from the posterior mean of the linearised model by %.3e" \
+                % np.abs(o["wf_samples"].mean(axis=0) - ref).max()
+        if np.any(o["wf_res"][0::2] != -o["wf_res"][1::2]):
+            return "mirrored Wiener-filter residuals are not exact negatives"
     if "geo" in o and not case["nonlinear"]:
         err = np.abs(o["geo"] - lin).max()
         if err > TOL_GEO:
